@@ -36,6 +36,18 @@ impl Tier {
     }
 }
 
+/// run `body` with the tier budget scaled by `f` (relative to the scale in force)
+pub fn with_budget_scale<T>(f: f64, body: impl FnOnce() -> T) -> T {
+    let outer: Option<f64> = std::env::var("VERIF_BUDGET_SCALE").ok().and_then(|s| s.parse().ok());
+    std::env::set_var("VERIF_BUDGET_SCALE", format!("{}", f * outer.unwrap_or(1.0)));
+    let r = body();
+    match outer {
+        Some(x) => std::env::set_var("VERIF_BUDGET_SCALE", format!("{}", x)),
+        None => std::env::remove_var("VERIF_BUDGET_SCALE"),
+    }
+    r
+}
+
 pub struct Ctx {
     pub prop: String,
     pub tier: Tier,
